@@ -1403,9 +1403,6 @@ theorem decodeFixed_valid : ∀ (ts : List FieldTy) (b : Bytes) (vs : List Val) 
         simp [validFixed, (field_decode_spec t _ _ _ ht.1 ht.2 h1).1,
           decodeFixed_valid ts _ _ _ (fun u hu => hw u (List.mem_cons_of_mem _ hu)) h2]
 
-/-- every type of the schema is HighZeroBytesDropped-free -/
-def Schema.plain (s : Schema) : Bool := s.fixed.all (·.plain) && s.tlvs.all (·.ty.plain)
-
 theorem schema_decode_valid (s : Schema) (b : Bytes) (v : MsgVal) (hwf : s.wf = true) (hp : s.plain = true)
     (h : s.decode b = .ok v) : v.valid s = true := by
   obtain ⟨h1, h2, h3⟩ := schema_wf_parts hwf
